@@ -215,6 +215,11 @@ func drvKind(r *Rng) string {
 	return Pick(r, "fail", "fail", "busy", "busy", "locked", "ioerr", "full")
 }
 
+func sameOpButClient(a, b Op) bool {
+	a.C, b.C = 0, 0
+	return a == b
+}
+
 func makeConcurrent(r *Rng, p *Plan) {
 	p.Cfg.Seam = "iface"
 	p.Cfg.Clients = r.Range(2, 4)
@@ -728,6 +733,26 @@ func init() {
 				q := scenarios["C10"].Gen(r, tier, n)
 				q.Scenario = "bastion-counters"
 				return q
+			}
+			if n%7 == 3 {
+				// identical requests in flight at the same time, through the adapter Main puts in front of the witness (feeders of one
+				// log, a retrying client): each is one request, whatever is done to serve them
+				var ops []Op
+				for _, o := range p.Ops {
+					ops = append(ops, o)
+					if o.K == "update" && r.Chance(0.5) {
+						ops = append(ops, o)
+					}
+				}
+				p.Ops = ops
+				makeConcurrent(r, p)
+				for i := 1; i < len(p.Ops); i++ {
+					if p.Ops[i] == p.Ops[i-1] || (p.Ops[i].K == "update" && p.Ops[i-1].K == "update" && p.Ops[i].C == p.Ops[i-1].C && sameOpButClient(p.Ops[i], p.Ops[i-1])) {
+						p.Ops[i].C = (p.Ops[i-1].C + 1) % p.Cfg.Clients
+					}
+				}
+				p.Cfg.Extra = map[string]int64{"via_adapter": 1}
+				return p
 			}
 			switch n % 3 {
 			case 1:
